@@ -11,7 +11,8 @@ for d in seeded/C*/; do
   w=$(mktemp -d /tmp/seedrun_XXXX); rmdir $w
   base=HEAD
   git -C /repo worktree add -q --detach $w HEAD 2>/dev/null
-  if ! git -C $w apply --check $PWD/$d/patch.diff 2>/dev/null; then
+  force=$(python3 -c "import json;print(json.load(open('$d/meta.json')).get('force_base',''))")
+  if [ -n "$force" ] || ! git -C $w apply --check $PWD/$d/patch.diff 2>/dev/null; then
     git -C /repo worktree remove --force $w
     base=$(python3 -c "import json;print(json.load(open('$d/meta.json'))['repo_base_commit'])")
     git -C /repo worktree add -q --detach $w $base
